@@ -93,10 +93,82 @@ theorem write_one_datagram (frames : List Bytes) (sent : List Bytes) :
   | nil => simp
   | cons f fs ih => rw [List.foldl_cons, ih]; simp [Udp.write]
 
+/-- **writes and flushes never disturb the receive side**: for any interleaving of reads (any offered sizes),
+flushes and writes, the chunks served, followed by what the adaptor still holds and the datagrams still to
+arrive, are exactly the buffered bytes and the datagrams in order — and the datagrams sent are exactly the
+written frames, one each, in order -/
+theorem ops_conserved (s : Udp.ASt) (ops : List Udp.AOp) (hd : ∀ d ∈ s.ds, d.length ≤ maxDatagram) :
+    (Udp.runOps s ops).1.flatten ++ (Udp.runOps s ops).2.buf ++ (Udp.runOps s ops).2.ds.flatten = s.buf ++ s.ds.flatten := by
+  induction ops generalizing s with
+  | nil => simp [Udp.runOps]
+  | cons op ops ih =>
+    cases op with
+    | fl => simpa [Udp.runOps] using ih s hd
+    | wr f => simpa [Udp.runOps] using ih { s with sent := Udp.write f s.sent } hd
+    | rd o =>
+      obtain ⟨buf, ds, sent⟩ := s
+      simp only [Udp.runOps]
+      cases buf with
+      | cons b bs =>
+        simp only [Udp.read]
+        have := ih { buf := (b :: bs).drop o, ds := ds, sent := sent } hd
+        simp only [List.flatten_cons, List.append_assoc] at this ⊢
+        rw [this, ← List.append_assoc, List.take_append_drop]
+      | nil =>
+        cases ds with
+        | nil => simp [Udp.read]
+        | cons d ds' =>
+          simp only [Udp.read]
+          have hdl : d.take maxDatagram = d := List.take_of_length_le (hd d (by simp))
+          have := ih { buf := d.drop o, ds := ds', sent := sent } (fun x hx => hd x (by simp [hx]))
+          simp only [hdl, List.flatten_cons, List.append_assoc, List.nil_append] at this ⊢
+          rw [this, ← List.append_assoc, List.take_append_drop]
+
+/-- the frames written in an op sequence, in order -/
+def written : List Udp.AOp → List Bytes
+  | [] => []
+  | .wr f :: ops => f :: written ops
+  | _ :: ops => written ops
+
+/-- the sent datagrams are a prefix-extension of the written frames: reads and flushes add nothing, every write adds
+exactly its frame (when no read blocks, exactly `written ops`) -/
+theorem ops_sent_prefix (s : Udp.ASt) (ops : List Udp.AOp) :
+    ∃ k, (Udp.runOps s ops).2.sent = s.sent ++ (written ops).take k := by
+  induction ops generalizing s with
+  | nil => exact ⟨0, by simp [Udp.runOps, written]⟩
+  | cons op ops ih =>
+    cases op with
+    | fl => simpa [Udp.runOps, written] using ih s
+    | wr f =>
+      obtain ⟨k, hk⟩ := ih { s with sent := Udp.write f s.sent }
+      refine ⟨k + 1, ?_⟩
+      simp only [Udp.runOps, written, List.take_succ_cons]
+      rw [hk]; simp [Udp.write]
+    | rd o =>
+      simp only [Udp.runOps, written]
+      cases hr : Udp.read s.buf o s.ds with
+      | none => exact ⟨0, by simp⟩
+      | some r =>
+        obtain ⟨c, b', d'⟩ := r
+        simpa using ih { s with buf := b', ds := d' }
+
+/-- with reads only, the op-level run is the plain run -/
+theorem runOps_reads (buf : Bytes) (ds sent : List Bytes) (offers : List Nat) :
+    (Udp.runOps { buf := buf, ds := ds, sent := sent } (offers.map .rd)).1 = (Udp.run buf offers ds).1 := by
+  induction offers generalizing buf ds with
+  | nil => simp [Udp.runOps, Udp.run]
+  | cons o os ih =>
+    simp only [List.map_cons, Udp.runOps, Udp.run]
+    cases hr : Udp.read buf o ds with
+    | none => rfl
+    | some r => obtain ⟨c, b', d'⟩ := r; simp only [ih]
+
 /-- negation witness for the pinned tree (tokio adaptor before the repair): a datagram larger than
 the offered slice loses its tail -/
 example : readUnbuffered 4 [[1, 2, 3, 4, 5, 6, 7, 8]] = some ([1, 2, 3, 4], []) := by decide
 /-- … whereas the buffered adaptor serves the rest on the next read -/
 example : (Udp.run [] [4, 4] [[1, 2, 3, 4, 5, 6, 7, 8]]).1 = [[1, 2, 3, 4], [5, 6, 7, 8]] := by decide
+/-- … also when a flush and a write fall between the two reads -/
+example : (Udp.runOps ⟨[], [[1, 2, 3, 4, 5, 6, 7, 8]], []⟩ [.rd 4, .fl, .wr [9], .rd 4]).1 = [[1, 2, 3, 4], [5, 6, 7, 8]] := by decide
 
 end Insim.Props.C08
